@@ -38,19 +38,20 @@ type World struct {
 	TS    *httptest.Server
 	Proxy *Proxy
 
-	mu        sync.Mutex
-	plans     map[int]*Plan
-	running   map[int]int // token -> active handler executions
-	execs     map[int]int
-	srvConnN  int
-	srvCancel map[int]context.CancelFunc
-	clients   map[string]*Client
-	started   map[int]bool
-	ended     map[int]bool
-	dialGate  chan struct{}
-	handlerWG sync.WaitGroup
-	revOpt    bool
-	srvOpts   []jsonrpc.ServerOption
+	mu          sync.Mutex
+	plans       map[int]*Plan
+	running     map[int]int // token -> active handler executions
+	execs       map[int]int
+	srvConnN    int
+	srvCancel   map[int]context.CancelFunc
+	clients     map[string]*Client
+	started     map[int]bool
+	ended       map[int]bool
+	dialGate    chan struct{}
+	handlerWG   sync.WaitGroup
+	revOpt      bool
+	srvOpts     []jsonrpc.ServerOption
+	prevRelease map[int]chan struct{}
 }
 
 type API struct {
@@ -193,6 +194,19 @@ func (w *World) plan(tok int) *Plan {
 
 func (w *World) Release(tok int) { closeOnce(w.plan(tok).release) }
 
+// Rearm makes the next execution of tok's handler wait for a new Release.
+func (w *World) Rearm(tok int) {
+	p := w.plan(tok)
+	w.mu.Lock()
+	if w.prevRelease == nil {
+		w.prevRelease = map[int]chan struct{}{}
+	}
+	w.prevRelease[tok] = p.release
+	p.release = make(chan struct{})
+	p.Gated = true
+	w.mu.Unlock()
+}
+
 func (w *World) Execs(tok int) int { w.mu.Lock(); defer w.mu.Unlock(); return w.execs[tok] }
 
 func (w *World) Running(tok int) bool { w.mu.Lock(); defer w.mu.Unlock(); return w.running[tok] > 0 }
@@ -227,10 +241,15 @@ func srvConnOf(ctx context.Context) int {
 // enter logs the start of a handler execution and returns the function that logs its end.
 func (h *H) enter(ctx context.Context, tok int, method string) (*Plan, func(res string)) {
 	w := h.w
+	pl := w.plan(tok)
 	w.mu.Lock()
+	// the release channel this execution waits on is fixed at the moment it becomes visible as running
+	rel := pl.release
 	w.running[tok]++
 	w.execs[tok]++
 	w.mu.Unlock()
+	snap := *pl
+	snap.release = rel
 	w.handlerWG.Add(1)
 	w.Rec.Emit("HandlerStart", "call", tok, "srvconn", srvConnOf(ctx), "method", method, "peer", "")
 	finished := make(chan struct{})
@@ -247,7 +266,7 @@ func (h *H) enter(ctx context.Context, tok int, method string) (*Plan, func(res 
 		case <-finished:
 		}
 	}()
-	return w.plan(tok), func(res string) {
+	return &snap, func(res string) {
 		close(finished)
 		w.Rec.Emit("HandlerEnd", "call", tok, "res", res)
 		w.mu.Lock()
